@@ -90,7 +90,7 @@ AUDIT_EXTRA = {
     'C14': [('SourceProps5', 'Garnish.Props.SourceProps', r'^C14_'), ('C14Lex', 'Garnish.Props.C14Lex', r'^(C14_|lex_|toP_binop|two_|three_|escaped_|double_|trailing_|asciiCC_lit|opTok_spelled)')],
     'C19': [('C19Store', 'Garnish.Props.C19Store', None), ('C19StoreOn', 'Garnish.Props.C19StoreOn', None), ('C19ListOn', 'Garnish.Props.C19ListOn', r'^(basic_makeList_law|listLaw|binvL_init)$'), ('C19StoreOnL', 'Garnish.Props.C19StoreOnL', r'^basicStore_'), ('C19MakeList', 'Garnish.Props.C19MakeList', r'^basic_makeListPop_law$'), ('C19NoStale', 'Garnish.Props.C19NoStale', r'^(optimize_|noDangling_|frameCell)')],
     'C15': [('C15Reach', 'Garnish.Props.C15Reach', None), ('RuntimeRefineSimple2', 'Garnish.Props.RuntimeRefine', r'^C15_'), ('RuntimeRefineSimple3', 'Garnish.Props.RuntimeRefine', r'^C15_')],
-    'C01': [('C01Compile', 'Garnish.Props.C01', None), ('C01Build', 'Garnish.Props.C01Build', None), ('C01Source', 'Garnish.Props.C01Source', None), ('C02Numbered', 'Garnish.Props.C02Numbered', r'^C01_'), ('C01Text', 'Garnish.Props.C01Text', None), ('C01Blocks', 'Garnish.Props.C01Blocks', None), ('RuntimeRefineStep', 'Garnish.Props.RuntimeRefine', r'^C01_'), ('C02Support', 'Garnish.Props.C02Support', r'^C01_'), ('SourceProps', 'Garnish.Props.SourceProps', r'^C01_'), ('RuntimeRefineStepFull', 'Garnish.Props.RuntimeRefine', r'^C01_'), ('RuntimeRefineRun', 'Garnish.Props.RuntimeRefine', r'^C01_'), ('C01TextStore', 'Garnish.Props.C01TextStore', None), ('RuntimeRefineCast', 'Garnish.Props.RuntimeRefine', r'^(C01_refine_(step|handler)_applyType|handlerSim_of_refinesCast)$'), ('C19Store', 'Garnish.Props.C19Store', r'^(basicStore_|decodes_of_unfold$)'), ('SourceProps5', 'Garnish.Props.SourceProps', r'^C01_'), ('RuntimeRefineSimple', 'Garnish.Props.RuntimeRefine', r'^C01_'), ('RuntimeRefineSimple2', 'Garnish.Props.RuntimeRefine', r'^C01_'), ('C01TextStoreSimple', 'Garnish.Props.C01TextStore', r'^C01_'), ('RuntimeRefineSimpleOn', 'Garnish.Props.RuntimeRefine', r'^C01_'), ('RuntimeRefineOn', 'Garnish.Props.RuntimeRefine', r'^C01_'), ('C01TextStoreOn', 'Garnish.Props.C01TextStore', r'^C01_'), ('RuntimeRefineOn1', 'Garnish.Props.RuntimeRefine', r'^C01_'), ('RuntimeRefineOn1', 'Garnish.Props.C01TextStore', r'^C01_'), ('RuntimeRefineOn2', 'Garnish.Props.RuntimeRefine', r'^C01_'), ('RuntimeRefineOn2', 'Garnish.Props.C01TextStore', r'^C01_'), ('C19StoreOn', 'Garnish.Props.C19StoreOn', r'^(basicStore_|basic_)'), ('RuntimeRefineOn3', 'Garnish.Props.RuntimeRefine', r'^C01_'), ('RuntimeRefineOn3', 'Garnish.Props.C01TextStore', r'^C01_'), ('RuntimeRefineOn4', 'Garnish.Props.RuntimeRefine', r'^C01_'), ('RuntimeRefineOn4', 'Garnish.Props.C01TextStore', r'^C01_'), ('RuntimeRefineOnBalanced', 'Garnish.Props.RuntimeRefine', r'^C01_'), ('C01TextStoreOnBalanced', 'Garnish.Props.C01TextStore', r'^C01_'), ('RuntimeRefineNoCustom', 'Garnish.Props.RuntimeRefine', r'^C01_'), ('C01TextStoreOnBalancedFull', 'Garnish.Props.C01TextStore', r'^C01_'), ('C01TextStoreOnBy', 'Garnish.Props.C01TextStore', r'^C01_'), ('C01BuilderAddresses', 'Garnish.Props.C01TextStore', r'^real_|^reloc_'), ('RuntimeRefineNoHcalls', 'Garnish.Props.RuntimeRefine', r'^C01_'), ('RuntimeRefineNoHcalls', 'Garnish.Props.C01TextStore', r'^C01_'), ('C01TextStoreStatic', 'Garnish.Props.C01TextStore', r'^C01_text_to_simple_store_(static|scalar)'), ('C01TextStoreStaticEx', 'Garnish.Props.C01TextStore', r'^(cond_static|nested_static|cond_static_scalar)$'), ('C01TextStoreScalar', 'Garnish.Props.C01TextStore', r'^C01_text_to_simple_store_scalar'), ('C01TextStoreScalarEx', 'Garnish.Props.C01TextStore', r'^(cond_static|nested_static|cond_static_scalar)$'), ('C01TextStoreOwn', 'Garnish.Props.C01TextStore', r'^(C01_builder_run_agrees|C01_text_to_simple_store_own|C01_text_to_simple_store_own_leaf|buildText_consts_leaf|hitEq_sound|cellEqB_eq|real_equal_literals_own|real_unit_literal_own)$'), ('C19ListOn', 'Garnish.Props.C19ListOn', r'^(basic_makeList_law|listLaw|binvL_init)$'), ('C19MakeList', 'Garnish.Props.C19MakeList', r'^basic_makeListPop_law$'), ('C19NoStale', 'Garnish.Props.C19NoStale', r'^(optimize_|noDangling_|frameCell)'), ('RuntimeRefineOnL', 'Garnish.Props.RuntimeRefine', r'^C01_refine_(step|run)_on(L|_basic)'), ('C01RefineBasic', 'Garnish.Props.RuntimeRefine', r'^(C01_refine_step_on_basic|basic_shadow_laws|basic_storeLawsOnL)'), ('ListSymRun', 'Garnish.Props.ListSymRun', r'^ListSymRun_'), ('ListSymText', 'Garnish.Props.ListSymText', r'^ListSym_'), ('C01BasicAddresses', 'Garnish.Props.C01TextStore', r'^(C01_basic_builder_run_agrees|basic_real_equal_literals|basic_real_unit_literal|basic_real_nested|basic_real_footprints|basic_real_symbol_text)$')],
+    'C01': [('C01Compile', 'Garnish.Props.C01', None), ('C01Build', 'Garnish.Props.C01Build', None), ('C01Source', 'Garnish.Props.C01Source', None), ('C02Numbered', 'Garnish.Props.C02Numbered', r'^C01_'), ('C01Text', 'Garnish.Props.C01Text', None), ('C01Blocks', 'Garnish.Props.C01Blocks', None), ('RuntimeRefineStep', 'Garnish.Props.RuntimeRefine', r'^C01_'), ('C02Support', 'Garnish.Props.C02Support', r'^C01_'), ('SourceProps', 'Garnish.Props.SourceProps', r'^C01_'), ('RuntimeRefineStepFull', 'Garnish.Props.RuntimeRefine', r'^C01_'), ('RuntimeRefineRun', 'Garnish.Props.RuntimeRefine', r'^C01_'), ('C01TextStore', 'Garnish.Props.C01TextStore', None), ('RuntimeRefineCast', 'Garnish.Props.RuntimeRefine', r'^(C01_refine_(step|handler)_applyType|handlerSim_of_refinesCast)$'), ('C19Store', 'Garnish.Props.C19Store', r'^(basicStore_|decodes_of_unfold$)'), ('SourceProps5', 'Garnish.Props.SourceProps', r'^C01_'), ('RuntimeRefineSimple', 'Garnish.Props.RuntimeRefine', r'^C01_'), ('RuntimeRefineSimple2', 'Garnish.Props.RuntimeRefine', r'^C01_'), ('C01TextStoreSimple', 'Garnish.Props.C01TextStore', r'^C01_'), ('RuntimeRefineSimpleOn', 'Garnish.Props.RuntimeRefine', r'^C01_'), ('RuntimeRefineOn', 'Garnish.Props.RuntimeRefine', r'^C01_'), ('C01TextStoreOn', 'Garnish.Props.C01TextStore', r'^C01_'), ('RuntimeRefineOn1', 'Garnish.Props.RuntimeRefine', r'^C01_'), ('RuntimeRefineOn1', 'Garnish.Props.C01TextStore', r'^C01_'), ('RuntimeRefineOn2', 'Garnish.Props.RuntimeRefine', r'^C01_'), ('RuntimeRefineOn2', 'Garnish.Props.C01TextStore', r'^C01_'), ('C19StoreOn', 'Garnish.Props.C19StoreOn', r'^(basicStore_|basic_)'), ('RuntimeRefineOn3', 'Garnish.Props.RuntimeRefine', r'^C01_'), ('RuntimeRefineOn3', 'Garnish.Props.C01TextStore', r'^C01_'), ('RuntimeRefineOn4', 'Garnish.Props.RuntimeRefine', r'^C01_'), ('RuntimeRefineOn4', 'Garnish.Props.C01TextStore', r'^C01_'), ('RuntimeRefineOnBalanced', 'Garnish.Props.RuntimeRefine', r'^C01_'), ('C01TextStoreOnBalanced', 'Garnish.Props.C01TextStore', r'^C01_'), ('RuntimeRefineNoCustom', 'Garnish.Props.RuntimeRefine', r'^C01_'), ('C01TextStoreOnBalancedFull', 'Garnish.Props.C01TextStore', r'^C01_'), ('C01TextStoreOnBy', 'Garnish.Props.C01TextStore', r'^C01_'), ('C01BuilderAddresses', 'Garnish.Props.C01TextStore', r'^real_|^reloc_'), ('RuntimeRefineNoHcalls', 'Garnish.Props.RuntimeRefine', r'^C01_'), ('RuntimeRefineNoHcalls', 'Garnish.Props.C01TextStore', r'^C01_'), ('C01TextStoreStatic', 'Garnish.Props.C01TextStore', r'^C01_text_to_simple_store_(static|scalar)'), ('C01TextStoreStaticEx', 'Garnish.Props.C01TextStore', r'^(cond_static|nested_static|cond_static_scalar)$'), ('C01TextStoreScalar', 'Garnish.Props.C01TextStore', r'^C01_text_to_simple_store_scalar'), ('C01TextStoreScalarEx', 'Garnish.Props.C01TextStore', r'^(cond_static|nested_static|cond_static_scalar)$'), ('C01TextStoreOwn', 'Garnish.Props.C01TextStore', r'^(C01_builder_run_agrees|C01_text_to_simple_store_own|C01_text_to_simple_store_own_leaf|buildText_consts_leaf|hitEq_sound|cellEqB_eq|real_equal_literals_own|real_unit_literal_own)$'), ('C19ListOn', 'Garnish.Props.C19ListOn', r'^(basic_makeList_law|listLaw|binvL_init)$'), ('C19MakeList', 'Garnish.Props.C19MakeList', r'^basic_makeListPop_law$'), ('C19NoStale', 'Garnish.Props.C19NoStale', r'^(optimize_|noDangling_|frameCell)'), ('RuntimeRefineOnL', 'Garnish.Props.RuntimeRefine', r'^C01_refine_(step|run)_on(L|_basic)'), ('C01RefineBasic', 'Garnish.Props.RuntimeRefine', r'^(C01_refine_step_on_basic|basic_shadow_laws|basic_storeLawsOnL)'), ('ListSymRun', 'Garnish.Props.ListSymRun', r'^ListSymRun_'), ('ListSymText', 'Garnish.Props.ListSymText', r'^ListSym_'), ('C01BasicAddresses', 'Garnish.Props.C01TextStore', r'^(C01_basic_builder_run_agrees|basic_real_equal_literals|basic_real_unit_literal|basic_real_nested|basic_real_footprints|basic_real_symbol_text)$'), ('C01RefineBasicList', 'Garnish.Props.RuntimeRefine', r"^(C01_basic_storeLawsOnL|C01_refine_step_on_basic_makeList'|C01_refine_run_on_basic'|basic_listPopLaw)$"), ('C01RefineBasicLen', 'Garnish.Props.RuntimeRefine', r'^C01_refine_step_on_basic_accessLength$')],
     'C06': [('C06Static', 'Garnish.Props.C06', None), ('RuntimeRefineData', 'Garnish.Props.RuntimeRefine', r'^C06_'), ('SourceProps', 'Garnish.Props.SourceProps', r'^C06_'), ('RuntimeRefineSimple2', 'Garnish.Props.RuntimeRefine', r'^C06_'), ('RuntimeRefineOnBalanced', 'Garnish.Props.RuntimeRefine', r'^C06_'), ('C19NoStale', 'Garnish.Props.C19NoStale', r'^(optimize_|noDangling_|frameCell)')],
     'C10': [('C01Compile', 'Garnish.Props.C01', r'^(C10_|C01_compile_correct$)'), ('C10Compile', 'Garnish.Props.C10', None), ('RuntimeRefineLogic', 'Garnish.Props.RuntimeRefine', r'^C10_'), ('SourceProps', 'Garnish.Props.SourceProps', r'^C10_')],
     'C17': [('C01Compile', 'Garnish.Props.C01', r'^(C17_|C01_compile_correct$|compile_env$)'), ('RuntimeRefineAccess', 'Garnish.Props.RuntimeRefine', r'^C17_'), ('RuntimeRefineApply', 'Garnish.Props.RuntimeRefine', r'^C17_'), ('SourceProps', 'Garnish.Props.SourceProps', r'^C17_'), ('RuntimeRefineTrace', 'Garnish.Props.RuntimeRefine', r'^C17_'), ('RuntimeRefineRunTrace', 'Garnish.Props.RuntimeRefine', r'^C17_'), ('RuntimeRefineRunTrace', 'Garnish.Props.C01TextStore', r'^C17_')],
